@@ -85,6 +85,13 @@ def gen(rng, tier):
         ncyc = rng.choice([10, 25, 60, 150, 400]) if tier == "quick" else rng.choice([60, 400, 1000, 3000])
         seed = rng.randrange(1 << 30)
         gc_every = rng.choice([0, 1, 7, 50])
+        if ncyc >= 1000:
+            # long histories keep to ordinary buffer sizes: with 64-byte pipes written byte by byte a run of thousands
+            # of conversations would need more sync points than the step cap that tells progress from a livelock
+            knobs["pipe_cap"] = max(knobs["pipe_cap"], 4096)
+            knobs["sock_cap"] = max(knobs["sock_cap"], 4096)
+            if knobs["chunk"] == "one":
+                knobs["chunk"] = "random"
         main += [["status"], ["repr_gw"], ["ncallbacks"], ["cycles_i", "c0", ncyc, seed, gc_every],
                  ["send", "c0", "c0:i2w:0:ping", ["none"]], ["recv", "c0"], ["gc"],
                  ["send", "c0", "c0:i2w:0:ping2", ["none"]], ["recv", "c0"],
@@ -126,7 +133,7 @@ def shrink_cases(case):
 
 
 def execute(case, chooser):
-    res = gwsim.run_case(case, chooser, max_steps=2_000_000 if case["ncyc"] > 500 else 400_000)
+    res = gwsim.run_case(case, chooser, max_steps=4_000_000 if case["ncyc"] > 500 else 400_000)
     gwsim.check_harness(res)
     hist = L.Hist(res)
     V, ncreated = oracle(case, res, hist)
